@@ -66,10 +66,10 @@ theorem lexNumber_numLex (lx : Bytes) (hl : NumLex lx) (pre tail : Bytes) (dbg :
       have hsp : spanDigits ((d0 :: dr) ++ tail) = (d0 :: dr, tail) := spanDigits_append _ _ hds htd
       rcases tail with _ | ⟨b, r⟩
       · simp only [List.append_nil] at hsp
-        cases neg <;> (unfold lexNumber; simp [lexSign, hd0s, hm, lexDigits, hsp, Iter.eat])
+        cases neg <;> (unfold lexNumber; simp [lexFrac, lexExp, lexSign, hd0s, hm, lexDigits, hsp, Iter.eat])
       · have := htl b r rfl
         simp only [List.cons_append] at hsp
-        cases neg <;> (unfold lexNumber; simp [lexSign, hd0s, hm, lexDigits, hsp, Iter.eat, this.1, this.2.1, this.2.2])
+        cases neg <;> (unfold lexNumber; simp [lexFrac, lexExp, lexSign, hd0s, hm, lexDigits, hsp, Iter.eat, this.1, this.2.1, this.2.2])
     | true =>
       obtain ⟨hfne, hfd⟩ := hfs rfl
       have hdot : ∀ b r, (0x2e :: fs) ++ tail = b :: r → isDigit b = false := by
@@ -79,10 +79,10 @@ theorem lexNumber_numLex (lx : Bytes) (hl : NumLex lx) (pre tail : Bytes) (dbg :
       have hsp2 : spanDigits (fs ++ tail) = (fs, tail) := spanDigits_append _ _ hfd htd
       rcases tail with _ | ⟨b, r⟩
       · simp only [List.append_nil, List.cons_append] at hsp hsp2
-        cases neg <;> (unfold lexNumber; simp [lexSign, hd0s, hm, lexDigits, hsp, hsp2, Iter.eat, hfne])
+        cases neg <;> (unfold lexNumber; simp [lexFrac, lexExp, lexSign, hd0s, hm, lexDigits, hsp, hsp2, Iter.eat, hfne])
       · have := htl b r rfl
         simp only [List.cons_append] at hsp hsp2
-        cases neg <;> (unfold lexNumber; simp [lexSign, hd0s, hm, lexDigits, hsp, hsp2, Iter.eat, hfne, this.2.1, this.2.2])
+        cases neg <;> (unfold lexNumber; simp [lexFrac, lexExp, lexSign, hd0s, hm, lexDigits, hsp, hsp2, Iter.eat, hfne, this.2.1, this.2.2])
 
 theorem cmpBytes_gt_of_lt : ∀ (a b : Bytes), cmpBytes a b = .lt → cmpBytes b a = .gt
   | [], [], h => by simp [cmpBytes] at h
